@@ -141,8 +141,13 @@ def array_ufunc(ufunc, method, inputs, kwargs):
             while isinstance(node, ak.layout.RegularArray):
                 shape.append(node.size)
                 node = node.content
+            # a RegularArray's content may be longer than length * size
+            count = 1
+            for s in shape:
+                count *= s
             if node.format.upper().startswith("M"):
                 nparray = ak.nplike.of(node).asarray(node.view_int64).view(node.format)
+                nparray = nparray[:count]
                 nparray = nparray.reshape(tuple(shape) + nparray.shape[1:])
                 return ak.layout.NumpyArray(
                     nparray,
@@ -151,6 +156,7 @@ def array_ufunc(ufunc, method, inputs, kwargs):
                 )
             else:
                 nparray = ak.nplike.of(node).asarray(node)
+                nparray = nparray[:count]
                 nparray = nparray.reshape(tuple(shape) + nparray.shape[1:])
                 return ak.layout.NumpyArray(
                     nparray,
